@@ -53,6 +53,9 @@ func checkC19(c *Ctx) {
 	c.Rule("C19-R14", "the page grid stays equal to the logical contents when the page is cleared: whoever asks for clearScreen (the clear flag) also invalidates the cell buffer on the same path, or every clean cell vanishes from the page")
 	c.Expect("C19-R14", 1)
 	checkClearImpliesInvalidate(c, p, "C19-R14", "wScreen")
+	c.Rule("C19-R15", "a mouse callback becomes an event unless its mode is off: onMouseEvent returns without posting only depending on the mouse flags and the callback's arguments, never on a remembered earlier report (two clicks on one cell are two events)")
+	c.Expect("C19-R15", 1)
+	checkWebMouseAlwaysPosts(c, p, "C19-R15")
 	// R1
 	tpkg := p.pkg("")
 	if tpkg == nil {
